@@ -147,5 +147,22 @@ PROPS["C02"] = dict(
     assumptions=["harness reference coercion implements spec 3.x/6.1.2/6.4.1", "variables are decoded with UseNumber, as every transport does"],
 )
 
+PROPS["C15"] = dict(
+    pkg="c15", race=False, level="fault_enumeration", prepare="exec_projects",
+    projects_quick=[("core", ["v0"])], projects_thorough=[("core", ["v0"])],
+    quick=dict(shards=8, timeout=900), thorough=dict(shards=16, timeout=3000),
+    claim="exhaustive enumeration of every request sequence up to length 3 (quick) / 4 (thorough) over a 19-letter alphabet "
+          "(4 query texts incl. a mutation and an invalid one x {text only, text+correct hash, text+another text's hash, hash only}, "
+          "malformed extension, wrong version, upper-cased hash) against a three-line model hash->text, plus rapid-generated long "
+          "histories over POST and GET with an inspectable evicting cache; after every step: hash-only executes exactly the registered "
+          "text (seen through the universal resolver's log) or PersistedQueryNotFound (only if the cache does not hold the hash), "
+          "mismatches execute and register nothing, and every cache entry satisfies sha256(text)=hash",
+    note="the alphabet is small by design; the cache is the harness's recording cache (gqlgen's lru is exercised by C03/C07)",
+    technique="exhaustive bounded enumeration + model-based state-machine testing (rapid) against a reference model",
+    rule="evaluation = one request; a sequence is non-trivial if it contains a registration, a later hash-only hit, and a mismatch or "
+         "eviction; distinct by the sequence",
+    assumptions=["sha256 from the Go standard library", "which text ran is identified by its root field in the resolver log"],
+)
+
 # properties deliberately not claimed (reason); anything else missing from PROPS is "not built yet"
 NOT_CLAIMED = {}
